@@ -6,8 +6,10 @@
 
     load / loadFirst / loadSecond  ~ Reader.load (n bytes or fewer + sentinel; ReadFull's two end-of-input errors)
     next                           ~ Reader.next
-    Retract                        ~ Reader.retract (the rune-size stack and the column bookkeeping are not modelled)
-    Lexeme / Skip                  ~ Reader.lexeme / Reader.skip (position bookkeeping not modelled)
+    next                           ~ … and appends the byte it returns to `pending`
+    Retract                        ~ Reader.retract, drops the given-back bytes from `pending` (the rune-size stack and the
+                                     column bookkeeping are not modelled)
+    Lexeme / Skip                  ~ Reader.lexeme / Reader.skip: return / clear `pending` (position bookkeeping not modelled)
 -/
 namespace Emerge.Ref.ReaderTmpl
 
@@ -17,12 +19,12 @@ def body_loadFirst : String := "{ return i.load(0, len(i.buff)/2) }"
 
 def body_loadSecond : String := "{ return i.load(len(i.buff)/2, len(i.buff)) }"
 
-def body_next : String := "{ if i.err != nil { return 0, i.err } b := i.buff[i.forward] if b == eof { return 0, io.EOF } i.forward++ if i.retracted > 0 { i.retracted-- if i.forward == len(i.buff) { i.forward = 0 } } else if i.forward == len(i.buff)/2 { i.err = i.loadSecond() } else if i.forward == len(i.buff) { if i.err = i.loadFirst(); i.err == nil { i.forward = 0 } } return b, nil }"
+def body_next : String := "{ if i.err != nil { return 0, i.err } b := i.buff[i.forward] if b == eof { return 0, io.EOF } i.forward++ i.pending = append(i.pending, b) if i.retracted > 0 { i.retracted-- if i.forward == len(i.buff) { i.forward = 0 } } else if i.forward == len(i.buff)/2 { i.err = i.loadSecond() } else if i.forward == len(i.buff) { if i.err = i.loadFirst(); i.err == nil { i.forward = 0 } } return b, nil }"
 
-def body_Retract : String := "{ if size, ok := i.runeSizes.Pop(); ok { i.forward -= size if i.forward < 0 { i.forward += len(i.buff) } i.retracted += size if i.buff[i.forward] == '\\n' { if lastColumn, ok := i.lastColumns.Pop(); ok { i.nextColumn = lastColumn } } else { i.nextColumn-- } } }"
+def body_Retract : String := "{ if size, ok := i.runeSizes.Pop(); ok { i.forward -= size if i.forward < 0 { i.forward += len(i.buff) } i.retracted += size i.pending = i.pending[:len(i.pending)-size] if i.buff[i.forward] == '\\n' { if lastColumn, ok := i.lastColumns.Pop(); ok { i.nextColumn = lastColumn } } else { i.nextColumn-- } } }"
 
-def body_Lexeme : String := "{ pos := i.pos() var lexeme bytes.Buffer for i.lexemeBegin != i.forward { lexeme.WriteByte(i.buff[i.lexemeBegin]) i.lexemeBegin++ if i.lexemeBegin == len(i.buff) { i.lexemeBegin = 0 } } for !i.runeSizes.IsEmpty() { i.runeSizes.Pop() i.offset++ } for !i.lastColumns.IsEmpty() { i.lastColumns.Pop() i.line++ } i.column = i.nextColumn return lexeme.String(), pos }"
+def body_Lexeme : String := "{ pos := i.pos() lexeme := string(i.pending) i.pending = i.pending[:0] i.lexemeBegin = i.forward for !i.runeSizes.IsEmpty() { i.runeSizes.Pop() i.offset++ } for !i.lastColumns.IsEmpty() { i.lastColumns.Pop() i.line++ } i.column = i.nextColumn return lexeme, pos }"
 
-def body_Skip : String := "{ pos := i.pos() i.lexemeBegin = i.forward for !i.runeSizes.IsEmpty() { i.runeSizes.Pop() i.offset++ } for !i.lastColumns.IsEmpty() { i.lastColumns.Pop() i.line++ } i.column = i.nextColumn return pos }"
+def body_Skip : String := "{ pos := i.pos() i.lexemeBegin = i.forward i.pending = i.pending[:0] for !i.runeSizes.IsEmpty() { i.runeSizes.Pop() i.offset++ } for !i.lastColumns.IsEmpty() { i.lastColumns.Pop() i.line++ } i.column = i.nextColumn return pos }"
 
 end Emerge.Ref.ReaderTmpl
